@@ -448,16 +448,23 @@ class Master(loader.Loader):
         """Run scheduler first time and update scheduled data."""
         placement = self.cell.schedule()
 
-        for servername, server in self.cell.members().items():
+        # Two loops, as in reschedule: remove all old placement before creating
+        # any new one, so that an interruption never leaves an app placed twice.
+        members = self.cell.members()
+        for servername, server in members.items():
             placement_node = z.path.placement(servername)
             self.backend.ensure_exists(placement_node)
 
             current = set(self.backend.list(placement_node))
-            correct = set(server.apps.keys())
-
-            for app in current - correct:
+            for app in current - set(server.apps.keys()):
                 _LOGGER.info('Unscheduling: %s - %s', servername, app)
                 self.backend.delete(os.path.join(placement_node, app))
+
+        for servername, server in members.items():
+            placement_node = z.path.placement(servername)
+            current = set(self.backend.list(placement_node))
+            correct = set(server.apps.keys())
+
             for app in correct - current:
                 _LOGGER.info('Scheduling: %s - %s,%s',
                              servername, app, self.cell.apps[app].identity)
